@@ -373,6 +373,15 @@ BATCH_METHODS.update({
 })
 
 
+# results that are subclasses of Frame / Series, produced through apply: (on the member, on the Batch)
+BATCH_METHODS.update({
+    'apply_to_frame_he': (lambda f: f.to_frame_he(), lambda b: b.apply(lambda f: f.to_frame_he())),
+    'apply_to_frame_go': (lambda f: f.to_frame_go(), lambda b: b.apply(lambda f: f.to_frame_go())),
+    'apply_series_he': (lambda f: sf.SeriesHE(f.iloc[0].values, index=f.columns), lambda b: b.apply(lambda f: sf.SeriesHE(f.iloc[0].values, index=f.columns))),
+    'apply_items_label': (lambda f: f.rename(None).iloc[:1], lambda b: b.apply_items(lambda k, f: f.rename(None).iloc[:1])),
+})
+
+
 def _proj_any(v):
     if isinstance(v, (sf.Frame, sf.Series)):
         return P.proj(v)
@@ -392,18 +401,23 @@ def batch_map_event(rng):
         members.append((f, C.rand_layout(rng, f)))
     name = rng.choice(sorted(BATCH_METHODS))
     fn = BATCH_METHODS[name]
-    frames = [P.build_frame(f, lay) for f, lay in members]
+    fn_member, fn_batch = fn if isinstance(fn, tuple) else (fn, fn)
+    # the members may be any Frame class (the Batch forwards to whatever it holds)
+    mcls = rng.choice([None, None, sf.FrameGO, sf.FrameHE])
+    if name == 'eq0' and mcls is sf.FrameHE:
+        mcls = None          # == on a FrameHE is whole-container equality (C10), not an element-wise operator
+    frames = [P.build_frame(f, lay, cls=mcls) for f, lay in members]
     direct = []
     for fr in frames:
         try:
-            direct.append([P.enc(fr.name), _proj_any(fn(fr))])
+            direct.append([P.enc(fr.name), _proj_any(fn_member(fr))])
         except Exception as e:
             direct.append([P.enc(fr.name), {'k': 'err', 'cat': P.err_category(e)}])
     via = []
     mw = rng.choice([None, None, 2])
     try:
         b = sf.Batch(((fr.name, fr) for fr in frames), max_workers=mw, use_threads=True) if mw else sf.Batch((fr.name, fr) for fr in frames)
-        it = iter(fn(b).items())
+        it = iter(fn_batch(b).items())
         while True:
             try:
                 k, v = next(it)
@@ -415,7 +429,7 @@ def batch_map_event(rng):
         via.append([direct[len(via)][0] if len(via) < len(direct) else ['s', 'ERROR'], {'k': 'err', 'cat': P.err_category(e)}])
     # the stream ends at the first failing member: compare up to and including it
     cut = next((i + 1 for i, d in enumerate(direct) if d[1].get('k') == 'err'), len(direct))
-    return {'kind': 'batch_map', 'method': name, 'members': [f for f, _ in members], 'direct': direct[:cut], 'via': via, 'workers': mw or 0}
+    return {'kind': 'batch_map', 'method': name + ('' if mcls is None else ':' + mcls.__name__), 'members': [f for f, _ in members], 'direct': direct[:cut], 'via': via, 'workers': mw or 0}
 
 
 def main(ctx):
